@@ -348,7 +348,7 @@ impl LockStep {
         let b = self.edge;
         let hint = self.hint;
         let mut info = self.rf.step(&hint);
-        if info.halted || !info.completes {
+        if (info.halted || !info.completes) && !(info.unspecified || self.resync_next) {
             let d = format!(
                 "{}: SUT reached the next instruction boundary but the reference {}",
                 Self::desc(&info),
@@ -436,7 +436,9 @@ impl LockStep {
         let hint = self.hint;
         let before = self.rf.clone();
         let mut info = self.rf.step(&hint);
-        if self.resync_next || (info.unspecified && !info.halted) {
+        if self.resync_next || info.unspecified {
+            // the instruction read a value no property specifies (or followed an unspecified
+            // CONTINUE): whatever the reference predicts from it is not comparable
             self.resync();
             self.resync_next = false;
             self.presses.clear();
@@ -573,6 +575,9 @@ impl LockStep {
                 let n = if self.asm() { i64::MIN / 2 } else { self.edge + 1 };
                 s.apply(&mut self.sut);
                 self.presses.push((n, en));
+                if self.at_boundary() {
+                    self.hint = io_snapshot(&self.sut);
+                }
             }
             Stim::Continue => {
                 let was = self.sut.state();
